@@ -47,7 +47,10 @@ STYLES = ('str', 'int', 'mixed')
 
 
 def _ident(prefix, i):
-    if STYLE == 'int' or (STYLE == 'mixed' and i % 2 == 0):
+    # a style may carry the bench option '/shared-label' (all generator objects report ONE identifier string; the
+    # setup has to tell devices apart by object, not by label)
+    base = STYLE.split('/')[0]
+    if base == 'int' or (base == 'mixed' and i % 2 == 0):
         return int(i)
     return '%s%d' % (prefix, i)
 
@@ -141,6 +144,11 @@ def faulty_classes():
 
         class FaultyAWG(DummyAWG):
             fault = 0
+            label = None          # a fixed identifier label (several devices of a rack may report the same one)
+
+            @property
+            def identifier(self):
+                return self.label if self.label is not None else super().identifier
 
             def remove(self, name):
                 if self.fault == 1:
@@ -192,6 +200,9 @@ class World:
         self.cfg = [tuple(c) for c in cfg]
         self.ndacs = ndacs
         self.awgs = [FaultyAWG(num_channels=c, num_markers=m) for c, m in self.cfg]
+        if STYLE.endswith('/shared-label'):
+            for a in self.awgs:
+                a.label = 'AWG'            # distinct generator objects, one identifier string
         self.dacs = [FaultyDAC() for _ in range(ndacs)]
         self.last_loop = {}         # program name number -> (Loop object, update) of the last ok registration
         # the wiring the caller handed over in the normally returning set_channel / set_measurement / rm_channel
@@ -1044,7 +1055,7 @@ def _exec_random_job(job):
     import random
     core.ensure_repo_on_path()
     rng = random.Random(seed)
-    style = rng.choice(['str', 'str', 'int', 'int', 'mixed'])
+    style = rng.choice(['str', 'str', 'int', 'int', 'mixed']) + rng.choice(['', '/shared-label'])
     return execute(cfg, ndacs, None, gen=history_generator(rng, cfg, ndacs, length, rewire_ok), style=style)
 
 
@@ -1260,9 +1271,9 @@ def run(ctx: core.Ctx):
 
     # exhaustive small scope
     exh_len = 3 if ctx.quick else 4          # a length, not a count: never escalated (ctx.n would multiply it)
-    # integer identifiers (the channel identifier 0 included) in this space
-    jobs = [(EXH_CFG[0], EXH_CFG[1], EXH_SETUP, 0, 'int')]          # the shared wiring prefix, checked once
-    jobs += [(EXH_CFG[0], EXH_CFG[1], ops, len(EXH_SETUP), 'int') for ops in exhaustive_histories(exh_len)]
+    # integer identifiers (the channel identifier 0 included) in this space; both generators report one label
+    jobs = [(EXH_CFG[0], EXH_CFG[1], EXH_SETUP, 0, 'int/shared-label')]          # the shared wiring prefix, checked once
+    jobs += [(EXH_CFG[0], EXH_CFG[1], ops, len(EXH_SETUP), 'int/shared-label') for ops in exhaustive_histories(exh_len)]
     ctx.exhaustive_spaces.append('all histories of length %d (prefixes included) over %d operations on a fixed wiring '
                                  '(%d histories)' % (exh_len, len(EXH_ALPHABET), len(jobs)))
     run_chunks(ctx, 'ops', jobs, 'exh', 1000)
@@ -1294,7 +1305,7 @@ def run(ctx: core.Ctx):
 
 def search(ctx):
     """model and implementation differ but no judged state violated the property: look further (judge only)"""
-    jobs = [(EXH_CFG[0], EXH_CFG[1], ops, len(EXH_SETUP), 'int') for ops in exhaustive_histories(3)]
+    jobs = [(EXH_CFG[0], EXH_CFG[1], ops, len(EXH_SETUP), 'int/shared-label') for ops in exhaustive_histories(3)]
     jobs += [(UNW_CFG[0], UNW_CFG[1], ops, len(UNW_SETUP), 'mixed') for ops in unwiring_histories(3)]
     jobs += [(EXH_CFG[0], EXH_CFG[1], ops, len(EXH_SETUP), 'str') for ops in fault_histories(3)]
     if run_chunks(ctx, 'ops', jobs, 'search', 1000, compare=False):
